@@ -51,18 +51,36 @@ Definition defect_C12_2 : bool := false.
    [meta; <int name>] is rejected at ingest. *)
 Definition defect_C12_3 : bool := false.
 
+(* DEFECT C12_5: generateMetaUpdates reads every registered metadata leaf back
+   with unchecked type assertions; a target can store any value at
+   meta/serverName (registered by cache.WithServerName) and at
+   meta/latency/window/<w>/<stat> (registered by cache.WithLatencyWindows), for
+   which gnmiUpdate has no type guard.  Becomes [false] with
+   fixes/C12_5_meta_refresh_checked.diff: comma-ok assertions, a leaf of another
+   kind is overwritten. *)
+Definition defect_C12_5 : bool := false.
+
+(** defect switches and the cache options the panic sites depend on *)
 Record flags := Flags {
-  f_idx : bool;       (* C12_1 *)
-  f_nilval : bool;    (* C12_2 *)
-  f_intmeta : bool;   (* C12_3 *)
-  f_equal : bool      (* C19_1, owned by Value/ValueModel.v *)
+  f_idx : bool;         (* C12_1 *)
+  f_nilval : bool;      (* C12_2 *)
+  f_intmeta : bool;     (* C12_3 *)
+  f_equal : bool;       (* C19_1, owned by Value/ValueModel.v *)
+  f_refresh : bool;     (* C12_5 *)
+  f_server_name : bool; (* option cache.WithServerName: "serverName" is a registered string metadata *)
+  f_latency : bool;     (* option cache.WithLatencyWindows with one window: three int metadata at
+                           meta/latency/window/<w>/{avg,max,min}, unset until the window is covered *)
+  f_event : bool        (* event-driven emulation on (default) *)
 }.
 
 (* value.Equal is the one of Value/ValueModel.v ([equal_gen] under its switch
    [defect_C19_1], final now: off, patch committed as b28d6aa). *)
-Definition cur_flags : flags := Flags defect_C12_1 defect_C12_2 defect_C12_3 defect_C19_1.
-Definition fixed_flags : flags := Flags false false false false.
-Definition all_defects : flags := Flags true true true true.
+Definition cur_flags_with (server_name latency event : bool) : flags :=
+  Flags defect_C12_1 defect_C12_2 defect_C12_3 defect_C19_1 defect_C12_5 server_name latency event.
+Definition cur_flags : flags := cur_flags_with false false true.
+Definition fixed_flags : flags := Flags false false false false false false false true.
+Definition all_defects : flags := Flags true true true true true false false true.
+Definition all_defects_opts : flags := Flags true true true true true true true true.
 
 (** * Messages *)
 
@@ -174,6 +192,11 @@ Definition md_sync := "sync".
 Definition md_connected := "connected".
 Definition md_connected_addr := "connectedAddress".
 Definition md_connect_error := "connectError".
+Definition md_server_name := "serverName".
+Definition md_latency := "latency".
+Definition md_window := "window".
+Definition md_window_name := "10ns".       (* the one window the harness configures *)
+Definition md_stats := ["avg"; "max"; "min"].
 Definition md_bool_names := [md_sync; md_connected].
 Definition md_int_names :=
   ["targetLeavesAdded"; "targetLeavesDeleted"; "targetLeavesEmpty"; "targetLeaves";
@@ -185,12 +208,14 @@ Definition name_in (k : string) (l : list string) : bool := existsb (String.eqb 
 
 Record tstate := TState {
   ts_tree : tree notif;
-  ts_cerr : bool              (* meta.connectError is set *)
+  ts_cerr : bool;             (* meta.connectError is set *)
+  ts_sync : bool;             (* Target.sync *)
+  ts_lat  : bool              (* lat.Compute was called since the cache was created *)
 }.
 
 Definition cstate := list (string * tstate).
 
-Definition new_tstate : tstate := TState None false.
+Definition new_tstate : tstate := TState None false false false.
 
 (** * Outcome classes *)
 
@@ -231,7 +256,8 @@ Definition meta_check (t : tstate) (p : path) (k : string) (v : tv) : tstate * o
     | TVnil =>
         (* DEFECT C12_2: [u.Val.Value] on nil; with the patch this is [Err err_meta_type] *)
         if f_nilval fl then (t, Panic panic_nil_val) else (t, Err err_meta_type)
-    | TVBool _ => (t, Ok tt)
+    | TVBool b =>
+        (if String.eqb k md_sync then TState (ts_tree t) (ts_cerr t) b (ts_lat t) else t, Ok tt)
     | _ => (t, Err err_meta_type)
     end
   else if String.eqb k md_connected_addr || String.eqb k md_connect_error then
@@ -240,7 +266,7 @@ Definition meta_check (t : tstate) (p : path) (k : string) (v : tv) : tstate * o
         (* DEFECT C12_2 *)
         if f_nilval fl then (t, Panic panic_nil_val) else (t, Err err_meta_type)
     | TVString _ =>
-        (if String.eqb k md_connect_error then TState (ts_tree t) true else t, Ok tt)
+        (if String.eqb k md_connect_error then TState (ts_tree t) true (ts_sync t) (ts_lat t) else t, Ok tt)
     | _ => (t, Err err_meta_type)
     end
   else
@@ -272,28 +298,39 @@ Definition update_pre (t : tstate) (p : path) (v : tv) : tstate * outcome unit :
 Definition tree_set (tr : tree notif) (p : path) (n : notif) : tree notif :=
   match CTreeModel.add tr p n with Some tr' => tr' | None => tr end.
 
+(** [t.lat.Compute]: only for real (non-meta) data of a synced target *)
+Definition is_real (p : path) : bool :=
+  match p with p0 :: _ => negb (String.eqb p0 md_root) | [] => true end.
+
+Definition lat_mark (t : tstate) (real : bool) : tstate :=
+  if ts_sync t && real then TState (ts_tree t) (ts_cerr t) (ts_sync t) true else t.
+
 (** the existing-leaf switch and the add of a new leaf *)
 Definition update_leaf (t : tstate) (p : path) (v : tv) (n : notif) : tstate * outcome unit :=
+  let real := is_real p in
   match CTreeModel.get (ts_tree t) p with
   | Some (Branch _) => (t, Err err_collision)
   | Some (Leaf old) =>
       if Z.ltb (n_ts n) (n_ts old) then (t, Err err_stale)
       else if Z.eqb (n_ts n) (n_ts old) && notif_eqb old n then (t, Err err_stale)
       else
-        let t2 := TState (tree_set (ts_tree t) p n) (ts_cerr t) in   (* oldval.Update(n) *)
-        if n_atomic n then (t2, Ok tt)
+        let t2 := TState (tree_set (ts_tree t) p n) (ts_cerr t) (ts_sync t) (ts_lat t) in   (* oldval.Update(n) *)
+        if n_atomic n then (lat_mark t2 real, Ok tt)
         else match n_upd old with
              | [] => (t2, Panic panic_old_update)
              | uo :: _ =>
                  match equal_gen (f_equal fl) (u_val uo) v with
                  | Panic _ => (t2, Panic panic_equal)
-                 | _ => (t2, Ok tt)
+                 | Ok true =>
+                     (* suppressed when event-driven emulation is on: no latency sample *)
+                     if f_event fl then (t2, Ok tt) else (lat_mark t2 real, Ok tt)
+                 | _ => (lat_mark t2 real, Ok tt)
                  end
              end
   | None =>
       match CTreeModel.add (ts_tree t) p n with
       | None => (t, Err err_add)
-      | Some tr' => (TState tr' (ts_cerr t), Ok tt)
+      | Some tr' => (lat_mark (TState tr' (ts_cerr t) (ts_sync t) (ts_lat t)) real, Ok tt)
       end
   end.
 
@@ -337,7 +374,7 @@ Definition gnmi_remove (t : tstate) (n : notif) : tstate * outcome unit :=
                       if f_idx fl then (t, Panic panic_path1) else (t, Ok tt)
                   | k :: _ =>
                       (* ResetEntry(path[1]): connectError is deleted *)
-                      (if String.eqb k md_connect_error then TState (ts_tree t) false else t, Ok tt)
+                      (if String.eqb k md_connect_error then TState (ts_tree t) false (ts_sync t) (ts_lat t) else t, Ok tt)
                   end
                 else (t, Ok tt)
             end in
@@ -346,7 +383,7 @@ Definition gnmi_remove (t : tstate) (n : notif) : tstate * outcome unit :=
           | (t1, Err e) => (t1, Err e)
           | (t1, Ok _) =>
               let r := CTreeModel.delete_cond (ts_tree t1) p (fun v => Z.ltb (n_ts v) (n_ts n)) in
-              (TState (fst r) (ts_cerr t1), Ok tt)
+              (TState (fst r) (ts_cerr t1) (ts_sync t1) (ts_lat t1), Ok tt)
           end
       end
   end.
@@ -455,25 +492,41 @@ Definition leaf_first_val (tr : tree notif) (p : path) : option (outcome tv) :=
       end
   end.
 
-Definition refresh_one (tr : tree notif) (k : string) (right_kind : tv -> bool) : bool :=
-  match leaf_first_val tr [md_root; k] with
+Definition refresh_at (tr : tree notif) (p : path) (right_kind : tv -> bool) : bool :=
+  match leaf_first_val tr p with
   | None => false
   | Some (Ok v) => negb (right_kind v)
   | Some _ => true
   end.
 
+Definition refresh_one (tr : tree notif) (k : string) (right_kind : tv -> bool) : bool :=
+  refresh_at tr [md_root; k] right_kind.
+
 Definition is_bool (v : tv) := match v with TVBool _ => true | _ => false end.
 Definition is_int (v : tv) := match v with TVInt _ => true | _ => false end.
 Definition is_str (v : tv) := match v with TVString _ => true | _ => false end.
 
+Definition latency_path (stat : string) : path :=
+  [md_root; md_latency; md_window; md_window_name; stat].
+
+(** the metadata registered by default, then the option-dependent ones: the
+    server name is set when the target is created; the latency statistics are
+    set by lat.UpdateReset once the window is covered, which in the harness'
+    clock (every call 10 ns after the previous one, one 10 ns window, positive
+    latencies) is the case as soon as one sample was taken in an earlier call *)
 Definition refresh_panics (t : tstate) : bool :=
   existsb (fun k => refresh_one (ts_tree t) k is_bool) md_bool_names ||
   existsb (fun k => refresh_one (ts_tree t) k is_int) md_int_names ||
   refresh_one (ts_tree t) md_connected_addr is_str ||
-  (ts_cerr t && refresh_one (ts_tree t) md_connect_error is_str).
+  (ts_cerr t && refresh_one (ts_tree t) md_connect_error is_str) ||
+  (f_server_name fl && refresh_one (ts_tree t) md_server_name is_str) ||
+  (f_latency fl && ts_lat t &&
+   existsb (fun st => refresh_at (ts_tree t) (latency_path st) is_int) md_stats).
 
 Definition refresh (c : cstate) : outcome unit :=
-  if existsb (fun kt => refresh_panics (snd kt)) c then Panic panic_meta_assert else Ok tt.
+  (* DEFECT C12_5: with the patch [Ok tt] (checked assertions) *)
+  if f_refresh fl && existsb (fun kt => refresh_panics (snd kt)) c
+  then Panic panic_meta_assert else Ok tt.
 
 End Ingest.
 
